@@ -504,3 +504,20 @@ func loaderStuck() bool {
 	}
 	return callerParked && workers == 0
 }
+
+// linkedAt searches every level of s (from the head, through marked nodes too)
+// for node p; it returns the level at which p is still linked, or -1.
+func linkedAt(s *skiplist.Skiplist, p unsafe.Pointer, bound int) int {
+	head, tail := s.HeadNode(), s.TailNode()
+	top := s.VerifLevel()
+	for lvl := top; lvl >= 0; lvl-- {
+		n, _ := head.VerifNext(lvl)
+		for steps := 0; n != nil && n != tail && steps < bound; steps++ {
+			if unsafe.Pointer(n) == p {
+				return lvl
+			}
+			n, _ = n.VerifNext(lvl)
+		}
+	}
+	return -1
+}
